@@ -10,6 +10,7 @@ import (
 	"os"
 	"os/exec"
 	"path/filepath"
+	"sort"
 	"strconv"
 	"strings"
 	"time"
@@ -27,7 +28,7 @@ func init() {
 		ID:    "C19",
 		Level: "model_checking",
 		Rule: "all sequences of length <= 3 (quick) / <= 4 (thorough, reduced alphabet at length 4) over an alphabet of ~55 drawing and style commands: move, line, rect (+/-), circle, poly (0, 2, 3 " +
-			"vertices), ellipse (3/4/5/7 arguments), text (plain, empty, markup characters, ]]>, control character), clear (none / colour), grid, gridn (10, 0.3, 0, -1, NaN), color, stroke, " +
+			"vertices), ellipse (3/4/5/7 arguments), text (plain, empty, markup characters, ]]>, control character), clear (none / colour), grid, gridn (25, 30, 0.3, 0, -1, NaN; for spacings with exact multiples every single line of the grid is compared: position counted from the origin at the bottom left, every fifth one thick), color, stroke, " +
 			"fill, width (1, 0, -1, NaN), dash (none, 1, 2 3), linecap, font (each property, valid and boundary values), two values each so that 'same as before', 'back to default' and 'new' " +
 			"all occur. Each sequence runs through the real evaluator with the real SVG platform (cli.WithSVG) and WriteSVG; the text must parse as XML (encoding/xml; thorough also expat via " +
 			"python); flattening <g> inheritance and root attributes must give exactly the shape list of the reference pen state machine (docs/builtins.md §Graphics): same order, one shape per " +
@@ -224,6 +225,9 @@ type c19Shape struct {
 	Text  string
 	// NoStyle: style not judged (clear: own colour; grid: own colour and widths)
 	Color string
+	// Lines (grid): every line of the grid in evy units, "v@x" / "h@y" with a trailing "T" for the thick ones, in drawing order
+	// per direction; LinesRaw is the same with the y axis NOT flipped (to name the recorded defect precisely)
+	Lines, LinesRaw string
 }
 
 type c19Canvas struct {
@@ -475,7 +479,8 @@ func flatten(n *svgNode, env map[string]string, out *[]c19Shape, inGrid bool) {
 		}
 		_, ownStroke := n.Attr["stroke"]
 		if onlyLines && ownStroke && len(n.Children) >= 2 && isGridGroup(n) {
-			*out = append(*out, c19Shape{Kind: "grid", Geo: gridUnit(n), Color: n.Attr["stroke"], Style: style()})
+			ln, raw := gridLines(n)
+			*out = append(*out, c19Shape{Kind: "grid", Geo: gridUnit(n), Color: n.Attr["stroke"], Style: style(), Lines: ln, LinesRaw: raw})
 			return
 		}
 		for _, c := range n.Children {
@@ -539,6 +544,49 @@ func isGridGroup(n *svgNode) bool {
 		}
 	}
 	return true
+}
+
+// gridLines lists the lines of a rendered grid group in evy units: verticals by x, horizontals by y (flipped back, and raw).
+func gridLines(n *svgNode) (flipped, raw string) {
+	var v, h, hr []string
+	for i, c := range n.Children {
+		thick := ""
+		if c.Attr["stroke-width"] != "" {
+			thick = "T"
+		}
+		if i%2 == 0 {
+			x, _ := strconv.ParseFloat(c.Attr["x1"], 64)
+			v = append(v, "v@"+g10(x/10)+thick)
+		} else {
+			y, _ := strconv.ParseFloat(c.Attr["y1"], 64)
+			h = append(h, "h@"+g10((1000-y)/10)+thick)
+			hr = append(hr, "h@"+g10(y/10)+thick)
+		}
+	}
+	sort.Strings(h) // the flip reverses the drawing order; compare as sets
+	sort.Strings(hr)
+	sort.Strings(v)
+	return strings.Join(v, " ") + " | " + strings.Join(h, " "), strings.Join(v, " ") + " | " + strings.Join(hr, " ")
+}
+
+// gridLinesWant is the documented grid: lines at 0, unit, 2*unit ... <= 100 in both directions from the origin (bottom left),
+// every fifth one thick. Only for units whose multiples are exact (unit*10 integral); "" otherwise (unit compared alone).
+func gridLinesWant(unit float64) string {
+	if unit <= 0 || unit*10 != math.Trunc(unit*10) {
+		return ""
+	}
+	var v, h []string
+	for k := 0; float64(k)*unit <= 100; k++ {
+		thick := ""
+		if k%5 == 0 {
+			thick = "T"
+		}
+		v = append(v, "v@"+g10(float64(k)*unit)+thick)
+		h = append(h, "h@"+g10(float64(k)*unit)+thick)
+	}
+	sort.Strings(v)
+	sort.Strings(h)
+	return strings.Join(v, " ") + " | " + strings.Join(h, " ")
 }
 
 func gridUnit(n *svgNode) string {
@@ -651,7 +699,7 @@ func kinds(s []c19Shape) string {
 
 // c19NarrowClass lists the signatures that describe one precise wrong field/value relation.
 var c19NarrowClass = map[string]bool{"ellipse-y-not-flipped": true, "ellipse-arc-ignored": true, "ellipse-y-not-flipped+arc-ignored": true,
-	"font-baseline-raw": true, "text-fill-from-stroke": true, "grid-inherits-pen-width": true}
+	"font-baseline-raw": true, "text-fill-from-stroke": true, "grid-inherits-pen-width": true, "gridn-y-not-flipped": true}
 
 // cmpShape returns every mismatch {signature, expected, observed} between a drawn and a rendered shape.
 func cmpShape(want, got c19Shape) (out [][3]string) {
@@ -674,6 +722,13 @@ func cmpShape(want, got c19Shape) (out [][3]string) {
 		gu, _ := strconv.ParseFloat(got.Geo, 64)
 		if math.Abs(wu-gu) > 1e-9 {
 			add("grid-unit", want.Geo, got.Geo)
+		}
+		if wl := gridLinesWant(wu); wl != "" && wl != got.Lines {
+			if wl == got.LinesRaw {
+				add("gridn-y-not-flipped", "horizontal lines counted from the bottom edge: "+wl, got.Lines)
+			} else {
+				add("grid-lines", wl, got.Lines)
+			}
 		}
 		if got.Style.Width != 1 {
 			add("grid-inherits-pen-width", "grid lines 0.1 units thin whatever the pen width", fmt.Sprint("stroke-width ", got.Style.Width))
